@@ -237,6 +237,12 @@ inline int driverMain(int argc, char** argv, Engine& e) {
         for (size_t i = 0; i < sizeof sigs / sizeof sigs[0]; i++) signal(sigs[i], SIG_DFL);
         sigset_t none; sigemptyset(&none); sigprocmask(SIG_SETMASK, &none, 0);
     }
+    if (a.mode == "dump") {      // a description is a pure function of the seed: written before anything of the library runs (a library that cannot even get through the engine's warm-up still gets its replay file)
+        Desc d; d.engine = e.name(); d.profile = a.profile; d.variant = e.variant(); d.seed = runSeed(e, a, (uint64_t)a.index);
+        e.generate(d.seed, a.profile, d);
+        if (!a.file.empty()) writeFile(a.file.c_str(), descToJson(d, e.kindName()).dump());
+        return 0;
+    }
     e.initProcess();
 
     if (a.mode == "dump" || a.mode == "one") {            // description (and optionally execution) of run --index
